@@ -1217,7 +1217,9 @@ func (m *Machine) callFunction(fn *ssa.Function, args []Value, caps []Value, pos
 	}
 	if fn.Blocks == nil {
 		if fn.Pkg != nil {
+			m.eng.methodMu.Lock()
 			fn.Pkg.Build()
+			m.eng.methodMu.Unlock()
 		}
 		if fn.Blocks == nil {
 			if m.initMode > 0 {
